@@ -10,6 +10,7 @@ TRANSLATORS = [  # (script, output argument, files it writes, fatal for everyone
     ('gadget_shape.py', os.path.join(COQ, 'Generated', 'GadgetShape.v'), ['Generated/GadgetShape.v'], False),
     ('rs2v.py', os.path.join(COQ, 'Generated'), ['Generated/Curve.v'], False),
     ('rs2v_gadgets.py', os.path.join(COQ, 'Generated'), ['Generated/GadgetsGen.v'], False),
+    ('rs2v_dep.py', os.path.join(COQ, 'Generated'), ['Generated/Dep.v'], False),
 ]
 LAST_TRANSLATION_ERRORS = []
 
